@@ -31,6 +31,7 @@
 -/
 import BlocV.Model.Lex
 import BlocV.Model.Num
+import BlocV.Model.Strtod
 import BlocV.Gen.Keywords
 
 namespace BlocV.Parse
@@ -280,12 +281,23 @@ def splitNum (text : Bytes) : Bytes × Nat × Int :=
     | [] => 0
   (ip ++ fp, fp.length, ex)
 
-/-- `Value::parseNumeric` = `std::stod(text)` on a DOUBLE / FLOAT token. -/
-def parseNumeric (text : Bytes) : Option UInt64 :=
+/-- The first model of the literal reader (`splitNum` + `strtodPos`), kept under its own name: it differs from
+`std::stod` in the window just below DBL_MIN (`2.22507385850720119781e-308` rounds to 2^-1022 but is TINY AFTER
+ROUNDING and inexact, so glibc sets ERANGE and `std::stod` throws; `strtodPos` answered 2^-1022). -/
+def parseNumericOld (text : Bytes) : Option UInt64 :=
   let (ms, k, ex) := splitNum text
   let m := natOfDigits 10 ms
   let p : Int := ex - k
   if p ≥ 0 then strtodPos (m * 10 ^ p.toNat) 1 else strtodPos m (10 ^ (-p).toNat)
+
+/-- `Value::parseNumeric` = `Numeric(std::stod(text))` on a DOUBLE / FLOAT token (value.cpp:585; the caller,
+parse_expression.cpp:174, turns `std::out_of_range` into EXC_PARSE_OUT_OF_RANGE). `std::stod` is the exact model of
+Model/Strtod.lean (glibc's correctly rounded conversion with its ERANGE rule: overflow, or tiny after rounding and
+inexact); a token always starts with a digit or `.digit`, so `invalid` cannot happen (mapped to `none` as well). -/
+def parseNumeric (text : Bytes) : Option UInt64 :=
+  match Strtod.stod text with
+  | .val b => some b
+  | _ => none
 
 /-! ## Keyword tables -/
 
